@@ -457,7 +457,7 @@ class C05(Prop):
                 "NV.C05.tie_context_fields_saved", "NV.C05.tie_every_field_saved_is_restored", "NV.C05.tie_context_globals",
                 "NV.C05.tie_frame_registers", "NV.C05.tie_frame_saved_is_restored", "NV.C05.tie_all_globals_classified",
                 "NV.C05.tie_classes_match_source", "NV.C05.tie_command_giver_stack", "NV.C05.tie_callback_handlers",
-                "NV.C05.tie_backend_shapes", "NV.C05.tie_catch_value_order", "NV.C05.raise_sets_catch_value_after_handler",
+                "NV.C05.tie_backend_shapes", "NV.C05.tie_catch_value_order", "NV.C05.tie_handler_flag", "NV.C05.raise_sets_catch_value_after_handler",
                 "NV.C05.driver_restores", "NV.C05.model_satisfies_spec_driver",
                 "NV.C05.backend_cycle_restores", "NV.C05.model_satisfies_spec_backend", "NV.C05.restoreContext_verb",
                 "NV.C05.saveContext_verb", "NV.C05.judgeObs_nil_of_core", "NV.C05.hbOffStep_same", "NV.C05.verbFinish_good", "NV.C05.hbFinish_good",
@@ -709,6 +709,14 @@ class C05(Prop):
                    "message, then the longjmp; nothing that can run LPC sits between the assignment and the longjmp -/\n"
                    "def errorHandlerSetsCatchValueAfterHandler : Bool := %s"
                    % ("true" if 0 <= i_h1 < i_free < i_cv < i_jmp and not re.search(r"\b(apply\w*|mudlib_error_handler|call_\w+)\s*\(", eh[i_cv:i_jmp]) else "false"))
+        # (5c) error_handler: in_mudlib_error_handler is cleared for an error raised inside the master's handler only when that
+        #      error is delivered to the context that was current at the handler's entry (the handler is abandoned)
+        clears = [mm.start() for mm in re.finditer(r"in_mudlib_error_handler\s*=\s*0\s*;", eh)]
+        guarded = [c for c in clears if re.search(r"if\s*\(current_error_context\s*==\s*mudlib_error_handler_context\)\s*$", eh[:c].rstrip())]
+        entries = len(re.findall(r"mudlib_error_handler_context\s*=\s*current_error_context\s*;\s*(?:in_error\s*=\s*0\s*;\s*)?mudlib_error_handler\s*\(", eh))
+        out.append("/-- error_handler: the two `in_mudlib_error_handler = 0` of the 'error inside the mudlib handler' branches are guarded by "
+                   "`current_error_context == mudlib_error_handler_context`; both handler applies record the entry context -/\n"
+                   "def errorHandlerKeepsFlagInsideHandler : Bool := %s" % ("true" if len(guarded) == 2 and entries == 2 else "false"))
         # (6) backend(): one context for the whole loop; recovery = restore_context only; pop_context after the loop
         be = body("src/backend.c", "backend")
         i_save, i_set, i_loop, i_pop = be.find("save_context (&econ)"), be.find("if (setjmp (econ.context))"), be.find("while (1)"), be.find("pop_context (&econ)")
@@ -776,6 +784,19 @@ class C05(Prop):
 
     def run_impl(self, ctx, cases):
         return E.run_harness(self.exe, self.conf, cases, ctx.rundir)
+
+    def shrink_ok(self, lines):
+        """a shrunk case stays self-contained: the scratch mudlib keeps files written by earlier cases of the same run, so a
+        case without its `src` lines would still "work" there but not as a replay"""
+        srcs = set(l.split()[1] for l in lines if l.startswith("src ") and len(l.split()) >= 3)
+        evaluates = any(l.split()[0] in ("inject", "run", "injectco", "injectbe", "injectsafe", "injectsafefp") for l in lines if l.strip())
+        if evaluates and "/c05/gen/t.c" not in srcs:
+            return False
+        for l in lines:
+            f = l.split()
+            if len(f) == 3 and f[0] == "load" and f[2].startswith("/c05/gen/") and f[2] + ".c" not in srcs:
+                return False
+        return True
 
     def canon(self, lines):
         return [l.rstrip() for l in lines if l.strip() != "" and not l.startswith("info ")]
@@ -900,9 +921,9 @@ class C05(Prop):
                    ("if", 'if (catch (f1 ())) VL ("say failed"); else VL ("say succeeded");',
                     "(catch (call local t 0 0 (raise boom1))) (say failed)"),
                    ("uncaught", 'f1 ();', "(call local t 0 0 (raise boom1))")]
-        # (scripts with at most ONE error caught inside the handler per invocation: the driver clears its "in the mudlib error
-        #  handler" flag at the first one, so a second one re-enters the handler recursively - see notes/C05.md)
-        for script in (1, 2, 4, 8, 16, 5, 7, 21):
+        # (31 = several errors caught inside ONE handler run: before the repair the driver cleared its "in the mudlib error
+        #  handler" flag at the first one and the second one re-entered the handler recursively - see notes/C05.md)
+        for script in (1, 2, 4, 8, 16, 5, 7, 21, 31):
             for name, stmt, hops in hshapes:
                 B.append(fixed_case("b-handler-script-%d-%s" % (script, name), stmt, hops, fns=hfns,
                                     prep='"/c05/master"->set_hscript (%d);' % script, inject="run t run"))
